@@ -70,3 +70,371 @@ STRESS = [
     ("tostring-metamethod-reentry", "local mt = {__tostring = function(t) return 'obj' .. #t end, __concat = function(a, b) return tostring(a) .. '|' .. tostring(b) end} "
                                     "local a, b = setmetatable({1}, mt), setmetatable({1, 2}, mt) local s = '' for i = 1, 100 do s = a .. b end emit(s)", [[{"s": "obj1|obj2"}]]),
 ]
+
+
+# ----------------------------------------------------------------------------------------------------------------
+# round 2, C13: the size family of spec/DumpSize.tla.  The spec gives, per (shape, n) and per variant of the dump / load
+# round trip, the events the program must produce; this module only renders the text described next to each case of
+# Events(s, n, kd) in the spec and compares the observed events with the emitted expectation for equality.
+
+def ds_shape_src(s, n, mid, probes):
+    seq = lambda f, sep=", ": sep.join(f(i) for i in range(1, n + 1))
+    names = lambda p: seq(lambda i: "%s%d" % (p, i))
+    if s == "siblings":
+        return ("local t = {}\n" + "".join("t[%d] = function(x) return x + %d end\n" % (i, i) for i in range(1, n + 1)) +
+                "local s = 0 for i = 1, #t do s = (s + t[i](0)) %% 9973 end\nemit(\"siblings\", #t, t[1](10), t[%d](10), s)" % n)
+    if s == "nested":
+        return 'emit("nested", ' + "(function() return 1 + " * n + "0" + " end)()" * n + ")"
+    if s == "module":
+        return ("local M = {}\n" + "".join("function M.f%d(a) return function(b) return function(c) return a + b + c + %d end end end\n" % (i, i) for i in range(1, n + 1)) +
+                'emit("module", M.f1(1)(2)(3), M.f%d(1)(2)(3))' % n)
+    if s == "upthread":
+        return ("local v = 7\nlocal r = " + "(function() return " * (n - 1) + "(function() v = v + %d return v end)()" % n + " end)()" * (n - 1) + '\nemit("upthread", r, v)')
+    if s == "deep-consts":
+        return ('emit("deep-consts", (' + "".join("(function() return %d + " % (1000 + j) for j in range(1, n + 1)) + "0" + " end)()" * n + ") % 9973)")
+    if s == "int-consts":
+        return ("local t = {%s}\nlocal s = 0 for i = 1, #t do s = (s + t[i]) %% 9973 end\nemit(\"int-consts\", #t, t[1], t[%d], s)" % (seq(lambda i: str(1000000 + i)), n))
+    if s == "float-consts":
+        return ("local t = {%s}\nlocal s = 0 for i = 1, #t do s = (s + math.tointeger(t[i] * 2)) %% 9973 end\n"
+                "emit(\"float-consts\", #t, math.type(t[%d]), math.tointeger(t[%d] * 2), s)" % (seq(lambda i: "%d.5" % i), n, n))
+    if s == "str-consts":
+        return ("local t = {%s}\nlocal s = 0 for i = 1, #t do s = (s + #t[i]) %% 9973 end\n"
+                "emit(\"str-consts\", #t, t[1]:sub(1, 1), tonumber(t[1]:sub(2)), tonumber(t[%d]:sub(2)), s)" % (seq(lambda i: '"k%05d"' % i), n))
+    if s == "bin-consts":
+        return ("local t = {%s}\nemit(\"bin-consts\", #t, #t[%d], t[%d]:byte(1), t[%d]:byte(2), t[%d]:byte(3), tonumber(t[%d]:sub(5)), tonumber(t[1]:sub(5)))"
+                % (seq(lambda i: '"\\0\\255\\200k%05d"' % i), n, n, n, n, n))
+    if s == "long-string":
+        return ('local s = "' + "".join("\\%03d" % ((i * 7 + 3) % 256) for i in range(1, n + 1)) + '"\nlocal c = 0 for i = 1, #s do c = (c + s:byte(i)) %% 9973 end\n'
+                'emit("long-string", #s, s:byte(1), s:byte(%d), s:byte(%d), c)' % (mid, n))
+    if s == "long-bracket":
+        return "local s = [==[" + "".join(chr(97 + (i - 1) % 26) for i in range(1, n + 1)) + ']==]\nemit("long-bracket", #s, s:byte(1), s:byte(%d))' % n
+    if s == "mixed":
+        return ("local t = {}\n" + "".join('t[%d] = function() return "shared", 424242, "own%05d", %d, %d.5 end\n' % (i, i, 1000000 + i, i) for i in range(1, n + 1)) +
+                "".join('do local a, b, c, d, e = t[%d]() emit("mixed", %d, a, b, tonumber(c:sub(4)), d, math.tointeger(e * 2)) end\n' % (p, p) for p in probes))
+    if s == "upvalues":
+        return ("local %s = %s\nlocal function f() a1 = a1 + 1 return a1 + a%d + 0 * (%s) end\nemit(\"upvalues\", f(), f(), a1)"
+                % (names("a"), seq(str), n, seq(lambda i: "a%d" % i, " + ")))
+    if s == "upvalue-layout":
+        return ("local %s = %s\nlocal function g() return u1, u%d, u%d, 0 * (%s) end\n"
+                "local function count(f) local c = 0 while debug.getupvalue(f, c + 1) do c = c + 1 end return c end\n"
+                "local h = load(string.dump(g), \"=ds\", \"b\")\nlocal same = true\n"
+                "for i = 1, count(g) do same = same and (debug.getupvalue(g, i)) == (debug.getupvalue(h, i)) end\n"
+                "for i = 1, count(g) do debug.upvaluejoin(h, i, g, i) end\n"
+                "emit(\"upvalue-layout\", count(h) == count(g), count(g), same, h())"
+                % (names("u"), seq(str), mid, n, seq(lambda i: "u%d" % i, " + ")))
+    if s == "locals":
+        return "local %s = %s\nemit(\"locals\", a1 + a%d, a%d)" % (names("a"), seq(str), n, mid)
+    if s == "instructions":
+        return "local x = 0\n" + "x = x + 1\n" * n + 'emit("instructions", x)'
+    if s == "jump-forward":
+        return "local x = 0\nif x == 1 then\n" + "x = x + 1\n" * n + 'end\nemit("jump-forward", x)'
+    if s == "jump-back":
+        return "local x, k = 0, 0\nwhile k < 3 do\nk = k + 1\n" + "x = x + 1\n" * n + 'end\nemit("jump-back", k, x)'
+    if s == "vararg":
+        return ("local function f(...) local a, b = ... return select('#', ...), a, b, (select(%d, ...)) end\nemit(\"vararg\", f(%s))\n"
+                "emit(\"vararg-main\", select('#', ...), ...)" % (n, seq(str)))
+    if s == "params":
+        return "local function f(%s) return p1, p%d end\nemit(\"params\", f(%s))" % (names("p"), n, seq(str))
+    if s == "returns":
+        return "local function f() return %s end\nemit(\"returns\", select('#', f()), (select(%d, f())))" % (seq(str), n)
+    if s == "lines":
+        return ("local function f(x)\n" + "".join('if x == %d then error("e") end\n' % i for i in range(1, n + 1)) + "return 0 end\n" +
+                "".join('do local ok, m = pcall(f, %d) local src, ln = tostring(m):match("^(.-):(%%d+):") emit("lines", %d, ok, src, tonumber(ln)) end\n' % (p, p) for p in probes))
+    if s == "edge-consts":
+        return ('emit("edge-consts", 9223372036854775807 == math.maxinteger, -9223372036854775807 - 1 == math.mininteger, 1e308 * 10 == math.huge, 5e-324 > 0, '
+                '5e-324 / 2 == 0, 0.1 + 0.2 == 0.30000000000000004, 1 / -0.0 == -math.huge, 0x7fffffffffffffff + 1 == math.mininteger, #"\\0", #"\\u{10FFFF}", ("\\xff"):byte(), #"")')
+    raise Infra("unknown DumpSize shape " + s)
+
+
+def _ds_longstr(s):
+    lvl = 0
+    while ("]" + "=" * lvl + "]") in s:
+        lvl += 1
+    return "[" + "=" * lvl + "[\n" + s + "]" + "=" * lvl + "]"
+
+
+DS_WRAPPER = r"""local src = %s
+local function run(tag, fn)
+  emit("variant", tag)
+  if not fn then emit("not-a-function") return end
+  local ok, e = pcall(fn, 11, 22, 33)
+  if not ok then emit("runtime-error", tostring(e)) end
+end
+local function reload(f, strip)
+  local ok, d = pcall(string.dump, f, strip)
+  if not ok then emit("dump-failed", tostring(d)) return nil end
+  local g, e = load(d, "=ds", "b")
+  if not g then emit("reload-failed", tostring(e)) end
+  return g, d
+end
+local f, e = load(src, "=ds")
+if not f then emit("not-compiled", tostring(e)) return end
+local want = {%s}
+for _, v in ipairs(want) do
+  if v == "direct" then
+    run("direct", f)
+  elseif v == "dump" then
+    emit("variant", "dump")
+    local g = reload(f)
+    if g then run("dump.run", g) end
+  elseif v == "strip" then
+    emit("variant", "strip")
+    local g = reload(f, true)
+    if g then run("strip.run", g) end
+  elseif v == "redump" then
+    emit("variant", "redump")
+    local g, d = reload(f)
+    if g then
+      local d1, d2 = string.dump(f), string.dump(g)
+      emit("stable", d1 == d, d2 == d)
+      local g2 = load(d2, "=ds", "b")
+      run("redump.run", g2)
+    end
+  elseif v == "inner" then
+    emit("variant", "inner")
+    local mk = load("return function(...) " .. src .. "\nend", "=ds")
+    if not mk then emit("inner-not-compiled") else
+      local g = reload(mk())
+      if g then run("inner.run", g) end
+    end
+  end
+end
+"""
+
+
+def ds_wrapper(src, variants):
+    return DS_WRAPPER % (_ds_longstr(src), ", ".join('"%s"' % v for v in variants))
+
+
+def ds_tok(x):
+    if x == "ANY":
+        return ("any",)
+    return tok(x)
+
+
+def ds_split(events):
+    """observed events -> {variant: [events]}; the markers are ["variant", name] and ["variant", name + ".run"]"""
+    out, cur = {}, None
+    for e in events:
+        if len(e) == 2 and e[0] == {"s": "variant"} and isinstance(e[1], dict) and "s" in e[1]:
+            name = e[1]["s"]
+            if name.endswith(".run"):
+                continue
+            cur = out.setdefault(name, [])
+        elif cur is not None:
+            cur.append(e)
+    return out
+
+
+def ds_match(exp, got):
+    if len(exp) != len(got):
+        return False
+    for ee, ge in zip(exp, got):
+        if len(ee) != len(ge):
+            return False
+        for x, g in zip(ee, ge):
+            t = ds_tok(x)
+            if t != ("any",) and t != g:
+                return False
+    return True
+
+
+def build_dumpsize(tier):
+    """-> list of {shape, n, src, variants: [{v, ev}]} from DumpSize.tla"""
+    lines = []
+    res = run_tlc("DumpSizeMC", "DumpSizeQ.cfg" if tier == "quick" else "DumpSizeT.cfg", timeout=600, on_line=lines.append, workers=1)
+    items = []
+    for l in sorted(lines, key=lambda l: (l["shape"], l["n"])):
+        src = ds_shape_src(l["shape"], l["n"], l["mid"], l["probes"])
+        items.append({"shape": l["shape"], "n": l["n"], "variants": l["variants"], "src": ds_wrapper(src, [v["v"] for v in l["variants"]]), "shape_src_head": src[:400]})
+    return items, res
+
+
+# ----------------------------------------------------------------------------------------------------------------
+# round 2, C14 (also run by C13): the chain programs of spec/DeadCo.tla: errors crossing Go functions inside coroutines,
+# inspection of the dead coroutines, further calls to provoke pool reuse, inspection again.  The spec gives the events.
+
+DC_PRELUDE = r"""local E = {}
+emit("E", E)
+local cos, tbs = {}, {}
+local FOREIGN = {%(foreign)s}
+local function foreign(j, tb)
+  for _, name in ipairs(FOREIGN[j]) do
+    if tb:find("%%f[%%w_]" .. name .. "%%f[^%%w_]") then return true end
+  end
+  return false
+end
+local function inspect(j, p, last)
+  local co = cos[j]
+  emit("status", j, p, coroutine.status(co))
+  local tb = debug.traceback(co)
+  emit("tb", j, p, tb)
+  emit("tbmsg", j, p, (debug.traceback(co, "MSG"):sub(1, 3)))
+  for lvl = 0, 2 do
+    local i = debug.getinfo(co, lvl)
+    emit("info", j, p, lvl, i == nil or (type(i) == "table" and type(i.currentline) == "number" and type(i.source) == "string"),
+         i and i.name, i and i.currentline, i and i.source)
+  end
+  emit("foreign", j, p, type(tb) ~= "string" or foreign(j, tb))
+  if tbs[j] == nil then tbs[j] = tb else emit("same", j, p, tb == tbs[j]) end
+  emit("resume-dead", j, p, coroutine.resume(co))
+  if last then
+    local ok, v = coroutine.close(co)
+    emit("close", j, ok, v)
+    emit("closed-status", j, coroutine.status(co))
+  end
+end
+local function under(n, f, ...)
+  if n == 0 then return f(...) end
+  local ok, err = pcall(under, n - 1, f, ...)
+  if not ok then error(err, 0) end
+end
+local churn = {}
+function churn.none() return 0 end
+function churn.pcalls(k)
+  local function d(n) if n == 0 then return 0 end local ok, v = pcall(d, n - 1) return v + 1 end
+  return d(k)
+end
+function churn.gocalls(k)
+  local n = 0
+  for i = 1, k do
+    local t = {5, 3, 4, 1, 2}
+    table.sort(t, function(a, b) return a < b end)
+    local s = string.gsub("ab", "%%w", function(c) return c:upper() end)
+    local u = tostring(setmetatable({}, {__tostring = function() return "obj" end}))
+    if t[1] == 1 and t[5] == 5 and s == "AB" and u == "obj" then n = n + 1 end
+  end
+  return n
+end
+function churn.coros(k)
+  local n = 0
+  for i = 1, k do
+    local co = coroutine.create(function() table.sort({3, 2, 1}, function(a, b) error("churn", 0) end) end)
+    local ok, e = coroutine.resume(co)
+    local w = coroutine.wrap(function() for j = 1, 3 do coroutine.yield(j) end end)
+    if not ok and e == "churn" and coroutine.status(co) == "dead" and w() + w() == 3 then n = n + 1 end
+  end
+  return n
+end
+"""
+
+DC_RAISE = {"tbl": "error(E)", "str0": 'error("boom", 0)', "str1": 'error("boom")', "nil": "error(nil)", "rt": "local z z.x = 1", "goerr": "string.rep()",
+            "none": ""}
+
+DC_GO = {
+    "sort": "local d = false table.sort({2, 1}, function(a, b) if not d then d = true NEXT() end return a < b end)",
+    "sortlt": "local d = false local mt = {__lt = function(a, b) if not d then d = true NEXT() end return false end} table.sort({setmetatable({}, mt), setmetatable({}, mt)})",
+    "gsub": 'string.gsub("a", "a", function() NEXT() return "b" end)',
+    "gsubtbl": 'string.gsub("a", "a", setmetatable({}, {__index = function() NEXT() return "b" end}))',
+    "tostring": 'tostring(setmetatable({}, {__tostring = function() NEXT() return "s" end}))',
+    "format": 'string.format("%s", setmetatable({}, {__tostring = function() NEXT() return "s" end}))',
+    "unpack": "table.unpack(setmetatable({}, {__index = function() NEXT() return 1 end}), 1, 1)",
+    "unpacklen": "table.unpack(setmetatable({}, {__len = function() NEXT() return 0 end}))",
+    "concat": 'table.concat(setmetatable({}, {__index = function() NEXT() return "x" end}), "", 1, 1)',
+    "insert": "table.insert(setmetatable({}, {__newindex = function() NEXT() end}), 1)",
+    "ipairs": "for i, v in ipairs(setmetatable({}, {__index = function(t, k) if k == 1 then NEXT() return 1 end return nil end})) do end",
+    "pairs": "for k, v in pairs(setmetatable({}, {__pairs = function(t) NEXT() return next, {}, nil end})) do end",
+    "lua": "NEXT()",
+    "load": 'local fn = load(function() NEXT() return nil end) if not fn then error("load-failed", 0) end',
+    "wrap": "local w = coroutine.wrap(function() cos[I] = coroutine.running() NEXT() end) w()",
+}
+
+
+def dc_render(l):
+    chain, k = l["chain"], len(l["chain"])
+    own = {c["co"]: c for c in l["cos"]}
+    helpers = ["inspect", "under", "foreign", "pcalls", "gocalls", "coros"]
+    foreign = ", ".join("[%d] = {%s}" % (c["co"], ", ".join('"%s"' % nm for nm in ["hop%d" % j for j in range(1, k + 2) if not c["lo"] <= j <= c["hi"]] + helpers))
+                        for c in l["cos"])
+    out = [DC_PRELUDE % {"foreign": foreign}]
+    out.append('local function hop%d() emit("in", %d) %s emit("ret", %d) end' % (k + 1, k + 1, DC_RAISE[l["err"]], k + 1))
+    for i in range(k, 0, -1):
+        h = chain[i - 1]
+        r, nxt = h["r"], "hop%d" % (i + 1)
+        re = "error(e, 0)" if h["f"] == "rethrow" else ""
+        if r == "tail":
+            body = "return %s()" % nxt
+            out.append('local function hop%d() emit("in", %d) %s end' % (i, i, body))
+            continue
+        if r in DC_GO:
+            body = DC_GO[r].replace("NEXT", nxt).replace("I", str(i)) if r == "wrap" else DC_GO[r].replace("NEXT", nxt)
+        elif r == "pcall":
+            body = 'local ok, e = pcall(%s) if not ok then emit("caught", %d, e) %s end' % (nxt, i, re)
+        elif r == "pcallmeta":
+            body = 'local ok, e = pcall(setmetatable({}, {__call = function() %s() end})) if not ok then emit("caught", %d, e) %s end' % (nxt, i, re)
+        elif r == "xpcall":
+            body = 'local ok, e = xpcall(%s, function(m) emit("handler", %d, m) return m end) if not ok then emit("caught", %d, e) %s end' % (nxt, i, i, re)
+        elif r in ("resume", "resumey"):
+            if r == "resume":
+                mk = "local co = coroutine.create(%s) cos[%d] = co" % (nxt, i)
+            else:
+                mk = ('local co = coroutine.create(function() coroutine.yield() %s() end) cos[%d] = co coroutine.resume(co) emit("yielded", %d, coroutine.status(co))'
+                      % (nxt, i, i))
+            body = '%s local ok, e = coroutine.resume(co) emit("resumed", %d, ok, e) inspect(%d, 1, %s) if not ok then %s end' % (mk, i, i, "true" if len(l["phases"]) == 1 else "false", re)
+        else:
+            raise Infra("unknown DeadCo route " + r)
+        out.append('local function hop%d() emit("in", %d) %s emit("ret", %d) end' % (i, i, body, i))
+    out.append('do local ok, e = pcall(hop1) emit("top", ok, e) end')
+    nph = len(l["phases"])
+    for p in range(2, nph + 1):
+        ph = l["phases"][p - 1]
+        out.append('emit("churn", %d, churn.%s(%d))' % (p, ph["churn"], ph["k"]))
+        for c in l["cos"]:
+            out.append("under(%d, inspect, %d, %d, %s)" % (ph["under"], c["co"], p, "true" if p == nph else "false"))
+    return "\n".join(out)
+
+
+def dc_judge(o, exp):
+    """compare_program with the extra token "ANY" (a value the specification leaves open)"""
+    if o.get("timeout"):
+        return {"kind": "hang", "detail": "did not finish within the watchdog"}
+    if o.get("crash") or o.get("panic"):
+        n = len(o.get("events") or [])
+        return {"kind": "crash", "detail": (o.get("panic") or o.get("stderr", ""))[:400], "tag": "process-died" if o.get("crash") else exp[n][0] if n < len(exp) else "end"}
+    got = o["events"]
+    for j, e in enumerate(exp):
+        if j >= len(got):
+            return {"kind": "events", "detail": "missing event %d: expected %s%s" % (j, json.dumps(e), "; the program ended with " + o.get("errstr", "")[:200] if not o.get("ok") else ""), "tag": e[0]}
+        g = got[j]
+        if len(g) != len(e) or not all(x == "ANY" or val_match(x, y) for x, y in zip(e, g)):
+            return {"kind": "events", "detail": "event %d: expected %s got %s" % (j, json.dumps(e), json.dumps(g)[:600]), "tag": e[0]}
+    if len(got) > len(exp):
+        return {"kind": "events", "detail": "extra event %d: %s" % (len(exp), json.dumps(got[len(exp)])[:300]), "tag": "extra"}
+    if not o.get("ok"):
+        return {"kind": "outcome", "detail": "expected normal end, got error %s" % o.get("errstr", "")[:200]}
+    return None
+
+
+def build_deadco(tier, rng, n_quick=700, n_sim=300):
+    """-> items {family: 'deadco', src, judge, case} from DeadCo.tla: exhaustive short chains (all for thorough, a seeded
+    sample for quick) plus random chains of length 5"""
+    lines, total = [], [0]
+    import hashlib
+
+    def on_line(l):
+        total[0] += 1
+        if tier != "quick":
+            # 60 000 cases of ~15 kB each: keep a seeded 20 % of them (decided per case, independent of TLC's emission order)
+            key = "%d|%s" % (seed(), json.dumps([l["chain"], l["err"]], sort_keys=True))
+            if int(hashlib.sha1(key.encode()).hexdigest()[:8], 16) % 1000 >= 200:
+                return
+        lines.append(l)
+    res = run_tlc("DeadCoMC", "DeadCoQ.cfg" if tier == "quick" else "DeadCoT.cfg", timeout=1500, on_line=on_line, workers=2 if tier == "quick" else 4)
+    total = total[0]
+    lines.sort(key=lambda l: json.dumps([l["chain"], l["err"]]))
+    if tier == "quick":
+        lines = rng.sample(lines, min(n_quick, len(lines)))
+    sim = []
+    run_tlc("DeadCoMC", "DeadCoSim.cfg", timeout=900, on_line=sim.append, simulate="num=%d" % (n_sim if tier == "quick" else 10 * n_sim), depth=8, workers=1)
+    seen, uniq = set(), []
+    for l in sim:
+        key = json.dumps([l["chain"], l["err"]])
+        if key not in seen:
+            seen.add(key)
+            uniq.append(l)
+    sim = rng.sample(uniq, min(len(uniq), 4 * n_sim if tier == "quick" else 40 * n_sim))
+    items = []
+    for l in lines + sim:
+        items.append({"family": "deadco", "src": dc_render(l), "case": {"chain": ["%s%s" % (h["r"], "" if h["f"] == "-" else ":" + h["f"]) for h in l["chain"]], "err": l["err"]},
+                      "judge": (lambda o, exp=l["ev"]: dc_judge(o, exp))})
+    return items, {"deadco_cases_enumerated": total, "deadco_states": res.distinct, "deadco_exhaustive_used": len(lines), "deadco_random_len5": len(sim)}
